@@ -129,3 +129,136 @@ Proof.
   rewrite power_num_loop by (auto; reflexivity). cbn [bind fst snd].
   rewrite (num_mul_ok (NInt 1) r (xok_int 1) Xr). cbn [bind]. rewrite xmul_1_l by assumption. eauto.
 Qed.
+
+(* ---------- pow(a, n) ---------- *)
+Definition pow_operand_ok (a : expr) (n : Z) : bool :=
+  mul_operand_ok a &&
+  match a with
+  | ENum c => npow_ok c n
+  | EMul c _ => npow_ok c n
+  | _ => true
+  end.
+
+(* operands of the fragment are themselves canonical and well formed *)
+Lemma mul_operand_good : forall a, mul_operand_ok a = true -> canonical a = true /\ wf a = true.
+Proof.
+  intros a H. unfold mul_operand_ok in H.
+  assert (ATOM : atom_ok a = true -> canonical a = true /\ wf a = true).
+  { intros T. destruct (atom_ok_inv _ T) as (W & C & _). auto. }
+  destruct a as [n1|nm1|nm1 i1|nm1|ac1 ad1|mc1 md1|pb1 pe1|fc1 fa1|fc1 fa1 fb1|fc1 fl1|nm1 fl1|fc1 fa1 fb1|fa1 fl1|fa1 fd1|fl1|bb1|is1 ie1 lo1 ro1|tc1];
+    cbn [mul_operand_ok_gen] in H; try (now apply ATOM).
+  - split; [cbn [canonical node_canonical]; now rewrite (xok_canonical n1 H) | now apply wf_ENum_x].
+  - apply andb_prop in H. destruct H as [H O]. apply andb_prop in H. destruct H as [H NE].
+    apply andb_prop in H. destruct H as [H _]. apply andb_prop in H. destruct H as [H D].
+    apply andb_prop in H. destruct H as [X Z]. apply negb_true_iff in Z, O.
+    split.
+    + apply canonical_EMul_frag; auto.
+      * intros ->. discriminate NE.
+      * destruct (num_is_one mc1); [right|left; reflexivity].
+        destruct md1 as [|p [|q r]]; [discriminate NE | discriminate O | cbn [length]; lia].
+    + apply wf_EMul_intro; auto. now apply mentries_wf.
+  - destruct pe1 as [n| | | | | | | | | | | | | | | | | ]; try discriminate H.
+    apply andb_prop in H. destruct H as [H O]. apply andb_prop in H. destruct H as [T Q]. apply negb_true_iff in O.
+    assert (NE : n <> NInt 1) by (intros ->; discriminate O).
+    split; [now apply canonical_EPow_frag|]. apply wf_EPow_intro; [apply (atom_ok_inv _ T) | apply wf_ENum_x; now apply qexp_ok_xok].
+Qed.
+
+Lemma step_pow_atom : forall rec a e, atom_ok a = true -> qexp_ok e = true ->
+  step_pow rec a (ENum e) = Ok (if SE.Expr.Cmp.num_eqb e (NInt 1) then a else EPow a (ENum e)).
+Proof.
+  intros rec a e T Q. destruct (atom_ok_inv _ T) as (_ & _ & A).
+  unfold step_pow. cbv zeta. rewrite (qexp_ok_nz _ Q). unfold e_one, e_zero, e_minus_one, e_int. rewrite eqb_ENum.
+  destruct (SE.Expr.Cmp.num_eqb e (NInt 1)); [reflexivity|].
+  assert (K : ctor_kind a <> 0%N) by (destruct a; try discriminate A; discriminate).
+  rewrite !(eqb_num_r _ a K).
+  pose proof (qexp_ok_xok _ Q) as X. pose proof (xok_exact _ X) as EX.
+  destruct a; try discriminate A; cbn [negb]; rewrite ?EX; cbn [negb];
+    try (match goal with |- context [expr_eqb ?x e_E] => destruct (expr_eqb x e_E) end); reflexivity.
+Qed.
+
+Lemma qexp_int : forall n, n <> 0 -> qexp_ok (NInt n) = true.
+Proof. intros n NZ. unfold qexp_ok. cbn [xok num_is_exact NumModel.num_wf num_is_zero andb]. now rewrite (proj2 (Z.eqb_neq n 0) NZ). Qed.
+
+Lemma pow_atom_result : forall a e, atom_ok a = true -> qexp_ok e = true ->
+  let r := if SE.Expr.Cmp.num_eqb e (NInt 1) then a else EPow a (ENum e) in
+  mul_operand_ok r = true /\ canonical r = true /\ wf r = true.
+Proof.
+  intros a e T Q r. subst r. pose proof (qexp_ok_xok _ Q) as X.
+  destruct (SE.Expr.Cmp.num_eqb e (NInt 1)) eqn:E.
+  - destruct (atom_ok_inv _ T) as (W & C & _). split; [now apply atom_operand | auto].
+  - assert (NE : e <> NInt 1) by (intros ->; discriminate E).
+    destruct (qexp_not_one e Q NE) as [O _].
+    split; [unfold mul_operand_ok; cbn [mul_operand_ok_gen]; now rewrite T, Q, O|].
+    split; [now apply canonical_EPow_frag|]. apply wf_EPow_intro; [apply (atom_ok_inv _ T) | now apply wf_ENum_x].
+Qed.
+
+Theorem pow_int_total_closed : forall f a n, pow_operand_ok a n = true ->
+  exists r, e_pow (S (S (S (S f)))) a (ENum (NInt n)) = Ok r /\
+    mul_operand_ok r = true /\ canonical r = true /\ wf r = true.
+Proof.
+  intros f a n H. unfold pow_operand_ok in H. apply andb_prop in H. destruct H as [Ha Hn].
+  destruct (mul_operand_good a Ha) as [Ca Wa].
+  unfold e_pow. 
+  destruct (Z.eq_dec n 0) as [->|NZ].
+  { exists (ENum (NInt 1)). split; [|repeat split; reflexivity]. unfold rE. rewrite arith_S. cbn [step]. unfold step_pow. reflexivity. }
+  destruct (Z.eq_dec n 1) as [->|N1].
+  { exists a. split; [|auto]. unfold rE. rewrite arith_S. cbn [step]. unfold step_pow. cbv zeta. cbn [num_is_zero Z.eqb].
+    replace (expr_eqb (ENum (NInt 1)) e_one) with true by reflexivity. reflexivity. }
+  assert (SHAPE : (exists c, a = ENum c) \/ (exists c d, a = EMul c d) \/ (exists b q, a = EPow b (ENum q)) \/ atom_ok a = true).
+  { unfold mul_operand_ok in Ha. destruct a; cbn [mul_operand_ok_gen] in Ha; eauto 6.
+    destruct a2; try discriminate Ha. eauto 6. }
+  destruct SHAPE as [(c & ->)|[(c & d & ->)|[(b & q & ->)|T]]].
+  - (* number *)
+    unfold mul_operand_ok in Ha. cbn [mul_operand_ok_gen] in Ha.
+    destruct (rE_pow_num (S (S (S f))) c n Ha Hn NZ) as (r & E & Xr). exists (ENum r). split; [exact E|].
+    split; [exact Xr|]. split; [cbn [canonical node_canonical]; now rewrite (xok_canonical r Xr) | now apply wf_ENum_x].
+  - (* product *)
+    destruct (mul_operand_ok_terms _ _ Ha) as [Xc D]. unfold mconst, mterms in Xc, D. cbn [mlin fst snd] in Xc, D.
+    destruct (step_power_num_int f c d n Xc Hn NZ D) as (r & E & Xr).
+    exists (mul_from_dict r (dmerge [] (pow_entries d n))).
+    assert (DD : mentries_ok (dmerge [] (pow_entries d n)) = true).
+    { apply dmerge_entries; [reflexivity | now apply pow_entries_ok]. }
+    split; [|split; [apply mfd_closed; auto; discriminate | split; [now apply mfd_canonical | now apply mfd_wf]]].
+    unfold rE. rewrite arith_S. cbn [step]. unfold step_pow. cbv zeta. cbn [num_is_zero]. rewrite (proj2 (Z.eqb_neq n 0) NZ).
+    unfold e_one, e_zero, e_minus_one, e_int. rewrite eqb_int_lit, (proj2 (Z.eqb_neq n 1) N1).
+    rewrite !(eqb_num_r _ (EMul c d)) by discriminate.
+    unfold rS. rewrite arith_S. cbn [step]. rewrite E. reflexivity.
+  - (* power of an atom *)
+    unfold mul_operand_ok in Ha. cbn [mul_operand_ok_gen] in Ha.
+    apply andb_prop in Ha. destruct Ha as [Ha O]. apply andb_prop in Ha. destruct Ha as [T Q].
+    pose proof (xmul_exp q n Q NZ) as Q'.
+    exists (if SE.Expr.Cmp.num_eqb (xmul q (NInt n)) (NInt 1) then b else EPow b (ENum (xmul q (NInt n)))).
+    split; [|now apply pow_atom_result].
+    unfold rE at 1. rewrite arith_S. cbn [step]. unfold step_pow. cbv zeta. cbn [num_is_zero]. rewrite (proj2 (Z.eqb_neq n 0) NZ).
+    unfold e_one, e_zero, e_minus_one, e_int. rewrite eqb_int_lit, (proj2 (Z.eqb_neq n 1) N1).
+    rewrite !(eqb_num_r _ (EPow b (ENum q))) by discriminate.
+    cbn [is_Integer]. rewrite rE_mul_num_S by auto using qexp_ok_xok, xok_int. cbn [bind].
+    unfold rE. rewrite arith_S. cbn [step]. rewrite step_pow_atom by assumption. reflexivity.
+  - (* atom *)
+    pose proof (qexp_int n NZ) as Q.
+    exists (if SE.Expr.Cmp.num_eqb (NInt n) (NInt 1) then a else EPow a (ENum (NInt n))).
+    split; [|now apply pow_atom_result].
+    unfold rE. rewrite arith_S. cbn [step]. rewrite step_pow_atom by assumption. reflexivity.
+Qed.
+
+Theorem pow_int_canonical : forall fuel a n r, pow_operand_ok a n = true ->
+  e_pow fuel a (ENum (NInt n)) = Ok r -> mul_operand_ok r = true /\ canonical r = true /\ wf r = true.
+Proof.
+  intros fuel a n r H E. destruct (pow_int_total_closed fuel a n H) as (r' & E' & C).
+  pose proof (le_ok _ _ _ r (e_pow_mono fuel (S (S (S (S fuel)))) a (ENum (NInt n)) ltac:(lia)) E) as E2.
+  rewrite E' in E2. injection E2 as ->. exact C.
+Qed.
+
+(* ---------- div(a, b) = mul(a, pow(b, -1)) ---------- *)
+Theorem div_canonical : forall fuel a b r, mul_operand_ok a = true -> pow_operand_ok b (-1) = true ->
+  e_div fuel a b = Ok r -> mul_operand_ok r = true /\ canonical r = true /\ wf r = true.
+Proof.
+  intros fuel a b r Ha Hb E. unfold e_div in E.
+  assert (NZ : is_number_and_zero b = false).
+  { unfold pow_operand_ok in Hb. apply andb_prop in Hb. destruct Hb as [_ Hb].
+    destruct b; try reflexivity. cbn [is_number_and_zero]. unfold npow_ok in Hb. apply andb_prop in Hb. destruct Hb as [_ Hb].
+    cbn [Z.leb orb] in Hb. destruct (num_is_zero n); [discriminate Hb | reflexivity]. }
+  rewrite NZ in E. destruct (e_pow fuel b e_minus_one) as [p| | |] eqn:P; try discriminate E. cbn [bind] in E.
+  destruct (pow_int_canonical fuel b (-1) p Hb P) as (Hp & _ & _).
+  exact (mul_canonical fuel a p r Ha Hp E).
+Qed.
